@@ -105,6 +105,11 @@ def gen_tree(rng, malformed=False):
             ff.append(inc)
     if rng.random() < 0.3:
         ff += ['[ nonbond_params ]', 'TA TB 1 0.33 0.9']
+    if rng.random() < 0.4:
+        # type entries in both branches of one conditional: each entry is stored with the branch it stands in
+        m = rng.choice(macros)
+        ff += [rng.choice([f'#ifdef {m}', f'#ifndef {m}']), '[ constrainttypes ]', 'TA TB 1 0.21', '[ bondtypes ]', 'TB TB 1 0.17 2000',
+               '#else', '[ bondtypes ]', 'TB TB 1 0.19 1500', '[ constrainttypes ]', 'TA TA 1 0.25', '#endif']
     files[f'{ffdir}/ff.itp'] = ff
     root.append(f'#include "{ffdir}/ff.itp"')
     # the same file included more than once: a type table read twice (directly after the nested include: a
@@ -254,7 +259,7 @@ def observe(wd, rootpath):
         os.chdir(cwd)
     types = {}
     for inter, tbl in top.types.items():
-        types[inter] = [(list(k), [[str(x) for x in p] for p, _ in v]) for k, v in tbl.items()]
+        types[inter] = [(list(k), [[str(x) for x in p] + [meta_txt(m)] for p, m in v]) for k, v in tbl.items()]
     return {'defaults': {k: (v if isinstance(v, str) else float(v)) for k, v in top.defaults.items()},
             'defines': {k: ([] if v is True else list(v)) for k, v in top.defines.items()},
             'atom_types': [(k, float(v['nb1']), float(v['nb2'])) for k, v in top.atom_types.items()],
@@ -264,6 +269,11 @@ def observe(wd, rootpath):
             'molecules': [m.mol_name for m in top.molecules],
             'mol_idx_by_name': {k: list(v) for k, v in top.mol_idx_by_name.items()},
             'natoms': [len(m.molecule.nodes) for m in top.molecules]}
+
+
+def meta_txt(m):
+    """the conditional a table entry was read under, as text"""
+    return 'always' if not m else f"{m['condition']} {m['tag']}"
 
 
 NATOMS = {'bondtypes': 2, 'angletypes': 3, 'dihedraltypes': 4, 'constrainttypes': 2, 'pairtypes': 2}
@@ -287,8 +297,11 @@ def model_obs(res):
     out['defaults'] = dd
     out['defines'] = {k: list(v) for k, v in defines}
     at, types, nb = {}, {}, {}
-    for sec, toks in content:
+    for sec, toks, meta in content:
         toks = list(toks)
+        from harness.coqio import unsome
+        m = unsome(meta)
+        mtxt = 'always' if m is None else f"{'ifdef' if m[1] else 'ifndef'} {m[0]}"
         if sec == 'atomtypes':
             at[toks[0]] = (toks[0], float(toks[-2]), float(toks[-1]))
         elif sec in NATOMS:
@@ -298,9 +311,9 @@ def model_obs(res):
             key = toks[:n]
             hit = [e for e in types[inter] if e[0] == key]
             if hit:
-                hit[0][1].append(toks[n:])
+                hit[0][1].append(toks[n:] + [mtxt])
             else:
-                types[inter].append((key, [toks[n:]]))
+                types[inter].append((key, [toks[n:] + [mtxt]]))
         elif sec == 'nonbond_params':
             nb[frozenset(toks[:2])] = (sorted(toks[:2]) if toks[0] != toks[1] else [toks[0]], float(toks[3]), float(toks[4]))
     out['atom_types'] = list(at.values())
@@ -344,6 +357,47 @@ def coq_tree(files, root):
     # tabs are whitespace for both sides; they are mapped to spaces only to keep the literal printable
     items = "; ".join(f"({lit(p)}, {lit([printable(l) for l in lines])})" for p, lines in files.items())
     return f"go [{items}] {lit(root)}"
+
+
+def expected_type_guards(lines):
+    """walk over the lines of a single (flattened) file: every bonded-type entry with the conditional open at that line"""
+    out, sec, meta = {}, None, None
+    for raw in lines:
+        line = raw.split(';', 1)[0].strip()
+        if not line:
+            continue
+        toks = line.split()
+        if line.startswith('#ifdef') or line.startswith('#ifndef'):
+            meta = (toks[0][1:], toks[1])
+        elif line.startswith('#else'):
+            meta = ({'ifdef': 'ifndef', 'ifndef': 'ifdef'}[meta[0]], meta[1]) if meta else None
+        elif line == '#endif':
+            meta = None
+        elif line.startswith('#') or line.startswith('*'):
+            continue
+        elif line.startswith('['):
+            sec = line.strip('[ ]').lower()
+        elif sec in NATOMS:
+            n = NATOMS[sec]
+            out.setdefault(sec[:-5] + 's', []).append((tuple(toks[:n]), tuple(toks[n:]) + ('always' if meta is None else f'{meta[0]} {meta[1]}',)))
+    return {k: sorted(v) for k, v in out.items()}
+
+
+def strip_type_meta(obs):
+    out = dict(obs)
+    out['types'] = {k: [(key, [p[:-1] for p in ps]) for key, ps in v] for k, v in obs.get('types', {}).items()}
+    return out
+
+
+def only_always_vs_guard(tree_obs, flat_obs):
+    """every differing type entry is unconditional in the tree reading and guarded in the flattened reading"""
+    for k, v in tree_obs.get('types', {}).items():
+        fv = dict((tuple(key), ps) for key, ps in flat_obs['types'].get(k, []))
+        for key, ps in v:
+            for a, b in zip(ps, fv.get(tuple(key), [])):
+                if a[-1] != b[-1] and a[-1] != 'always':
+                    return False
+    return True
 
 
 def same(a, b, skip=()):
@@ -432,6 +486,15 @@ def run(ctx):
                 with open(os.path.join(wd, 'flat.top'), 'w') as fh:
                     fh.write('\n'.join(flat_lines) + '\n')
                 flat = observe(wd, 'flat.top')
+                # the conditional every type entry of the flattened file stands under, from the text alone
+                if 'error' not in flat:
+                    want = expected_type_guards(flat_lines)
+                    got = {k: sorted((tuple(key), tuple(p)) for key, ps in v for p in ps) for k, v in flat['types'].items()}
+                    if got != want:
+                        inter = next(k for k in set(got) | set(want) if got.get(k) != want.get(k))
+                        ctx.violation('spec', f"type entries are stored under other conditionals than the ones they stand in: {inter} read as "
+                                      f"{got.get(inter)}, the (flattened) text states {want.get(inter)}",
+                                      {'tree': tree, 'kind': 'type_guards', 'flat_lines': flat_lines})
             except FileNotFoundError:
                 flat = {'error': 'ErrIO'}
             if rng.random() < 0.3:
@@ -474,9 +537,12 @@ def run(ctx):
                 ctx.extra.setdefault('disagreements', []).append({'tree': tree, 'diff': first_diff(model, impl)})
         # the statement itself, on the implementation
         if not same(impl, flat, skip=('blocks',)):
+            fid = 'F7c' if cond_moltype_include(tree) and impl.get('error') != 'ErrIO' and flat.get('error') == 'ErrIO' else None
+            if fid is None and 'error' not in impl and 'error' not in flat and same(strip_type_meta(impl), strip_type_meta(flat), skip=('blocks',)) \
+                    and only_always_vs_guard(impl, flat):
+                fid = 'F7d'     # the only difference: the conditional stored with type entries read through a conditional include
             ctx.violation('spec', f"reading the include tree differs from reading the flattened file: {first_diff(impl, flat)}",
-                          {'tree': tree, 'kind': 'tree_vs_flat', 'diff': first_diff(impl, flat)},
-                          finding='F7c' if cond_moltype_include(tree) and impl.get('error') != 'ErrIO' and flat.get('error') == 'ErrIO' else None)
+                          {'tree': tree, 'kind': 'tree_vs_flat', 'diff': first_diff(impl, flat)}, finding=fid)
         elif 'error' not in impl and [l for b in impl['blocks'] for l in b if not l.startswith('[ system') and not l.startswith('[ molecules')] != \
                 [l for b in flat['blocks'] for l in b if not l.startswith('[ system') and not l.startswith('[ molecules')]:
             pass   # block boundaries may differ between tree and flat; their content is compared through natoms below
